@@ -49,7 +49,8 @@ class C14(Check):
     assumptions = ["bisimulation tolerance 1e-8*||X|| for exact-block algorithms (parafac, tucker, parafac2), 1e-5*||X|| for MU / HALS / ADMM inner solvers",
                    "fixing the last mode of parafac / non_negative_parafac / constrained_parafac / non_negative_tucker_hals is documented (warning) as unsupported and not demanded",
                    "bisimulation is not demanded of constrained_parafac: its ADMM inner solver is inexact and start-dependent for any finite inner budget",
-                   "non-negative algorithms are given non-negative initialisations and non-negative weights"]
+                   "non-negative algorithms are given non-negative initialisations and non-negative weights",
+                   "bisimulation guarded (counted) when a block Gram matrix of an iterate has condition number > 1e8 (solution of the block not unique)"]
 
     def groups(self, tier, seed):
         gs = []
@@ -239,8 +240,27 @@ class C14(Check):
         else:
             ctx.outcome(f"{algo}:zero-budget:ok")
         # ---- bisimulation
+        def well_posed(kind, r):
+            # "same iterates" presupposes that each block problem has a unique solution
+            from vmc.props.c07 import cp_gram_conds
+            try:
+                if kind in ("cp", "parafac2"):
+                    return cp_gram_conds(r[1], r[0]) <= 1e8
+            except Exception:
+                return False
+            return True
+
+        if algo == "parafac2":
+            # the projection step takes the polar factor of B diag(a_i) C^T X_i^T, which is unique only if that R x J matrix has rank R
+            sv = [np.linalg.svd(X[i], compute_uv=False) for i in range(shape[0])]
+            if any(len(v) < rank or v[rank - 1] < 1e-6 * v[0] for v in sv):
+                ctx.count("guarded_out:bisimulation-parafac2-slice-rank-below-model-rank")
+                chains = {0: chains[0]}
         for variant, ch in chains.items():
             if variant == 0:
+                continue
+            if not all(well_posed(c[0], c[1]) for c in chains[0]) or not all(well_posed(c[0], c[1]) for c in ch):
+                ctx.count("guarded_out:bisimulation-ill-conditioned-block-problem")
                 continue
             for k in range(K + 1):
                 a = dense_of(chains[0][k][0], chains[0][k][1])
